@@ -808,6 +808,12 @@ def masked_offsets(P, R, rule):
                         if isinstance(st, ast.Assign) and ({n_.id for t_ in st.targets for n_ in ast.walk(t_) if isinstance(n_, ast.Name)} & so) \
                                 and any(isinstance(x, ast.Attribute) and x.attr in ('buffer_offsets', 'buffer_outer_offsets', 'buffer_inner_offsets') and norm(x.value) == 'self' for x in ast.walk(st.value)):
                             own_offs = True
+                if not own_offs:
+                    # the array's own arrow offsets (possibly re-based by a constant): the same elements, the same emptiness
+                    oe_txt = norm(oe)
+                    own_offs = 'self.data.offsets' in oe_txt or any(isinstance(d_[1], ast.AST) and any(isinstance(x, ast.Attribute) and x.attr == 'offsets' for x in ast.walk(d_[1])) and 'self.data' in {norm(dd[1]) for nm2 in astq.sources(f, d_[1]) for dd in astq.assignments(f, nm2) if dd[0] == 'expr' and isinstance(dd[1], ast.AST)} | {norm(d_[1]).split('.offsets')[0]}
+                                                                     for nm in astq.sources(f, offs) for d_ in astq.assignments(f, nm) if d_[0] == 'expr') or any(isinstance(d_[1], ast.AST) and 'self.data' in norm(astq.expand(f, d_[1])) and '.offsets' in norm(d_[1])
+                                                                     for nm in astq.sources(f, offs) for d_ in astq.assignments(f, nm) if d_[0] == 'expr')
                 ok = own_isna and own_offs and not widened
                 R.check(ok, rule, f, c, 'a validity mask is attached only to the array\'s own offsets, marking its own missing elements',
                         f'`{norm(c)[:80]}` attaches the mask `{norm(mk)[:40]}` ' + ('(more elements than were missing) ' if widened else '') + 'to offsets in which the newly masked elements still span coordinates: '
@@ -877,4 +883,30 @@ def scratch_per_iteration(P, R, rule, modules):
                     R.check(bool(full), rule, f, reds[0], f'`{name}` (allocated once, reduced per element) is cleared as a whole for every element',
                             f'`{norm(reds[0])}` reduces the whole of `{name}`, which is allocated once before the loop and ' + ('only partly reset (`' + norm(resets[0]) + '`)' if resets else 'never reset') +
                             ' per element: flags set for an earlier element decide later ones - the answer of an element depends on the elements before it', construct=f'{f.qualname}: scratch {name} per element')
+    return n
+
+
+def rewrap_children_zero_offset(P, R, rule):
+    """(S1) The buffer accessors (`buffer_values`, `buffer_offsets`, `flat_values`) read the raw arrow buffers of the children and apply the offset of the
+    OUTER array only.  A list array assembled with `ListArray.from_arrays(offsets, child)` is therefore read correctly only when `child` starts at position 0 of
+    its buffers: built from numpy data (`pa.array(values)`, the numpy buffers themselves) or by an inner from_arrays.  `x.flatten()` / `x.values[a:b]` of an
+    existing arrow array are zero-copy WINDOWS: for a sliced array they carry an offset that every accessor ignores."""
+    n = 0
+    for m in P.mods.values():
+        if not m.name.startswith('spatialpandas.geometry'):
+            continue
+        for f in m.funcs.values():
+            if isinstance(f.node, ast.Lambda):
+                continue
+            for c in astq.own_calls(f):
+                if not (isinstance(c.func, ast.Attribute) and c.func.attr == 'from_arrays' and len(c.args) >= 2):
+                    continue
+                n += 1
+                ch = astq.expand(f, c.args[1])
+                windows = [x for x in ast.walk(ch) if isinstance(x, ast.Call) and isinstance(x.func, ast.Attribute) and x.func.attr in ('flatten', 'slice')] + \
+                          [x for x in ast.walk(ch) if isinstance(x, ast.Subscript) and isinstance(x.value, ast.Attribute) and x.value.attr == 'values']
+                R.check(not windows, rule, f, c, 'the child of a re-wrapped list array starts at the beginning of its buffers',
+                        f'`{norm(c)[:70]}` wraps `{norm(windows[0])[:40] if windows else ""}`, a zero-copy window of an existing arrow array: for a sliced source it has a non-zero offset that buffer_values / '
+                        'buffer_offsets / flat_values ignore, so bounds, measures and intersection tests of the result read the coordinates at the head of the parent\'s buffers',
+                        construct=f'{f.qualname}: child {norm(c.args[1])[:40]}')
     return n
